@@ -569,7 +569,12 @@ def conversions(ctx, bad):
                     cues, problem = vtt_chars(out)
                 else:
                     _, out, _ = M.write(SAMI, "SAMIWriter", cs, init_kw={"video_width": 640, "video_height": 360})
-                    cues, problem = [c["chars"] for c in read_back(read(out))["en-US"]], None
+                    back_ = read_back(read(out))
+                    if "en-US" not in back_:
+                        bad["convert"].append(dict(case, target=target, why="the language is not there after SAMIWriter.write -> SAMIReader.read",
+                                                   languages=list(back_)))
+                        continue
+                    cues, problem = [c["chars"] for c in back_["en-US"]], None
             except FoldRaise as e:
                 bad["convert"].append(dict(case, target=target, raises=f"{e.exc_name}: {e}"[:160]))
                 continue
